@@ -157,9 +157,9 @@ func obsValue(o *OptNode, f reflect.Value) []any {
 		}
 	case "map":
 		keys := f.MapKeys()
-		sort.Slice(keys, func(i, j int) bool { return keys[i].String() < keys[j].String() })
+		sort.Slice(keys, func(i, j int) bool { return atomText(keys[i]) < atomText(keys[j]) })
 		for _, k := range keys {
-			out = append(out, []S{toS(k.String()), toS(atomText(f.MapIndex(k)))})
+			out = append(out, []S{toS(atomText(k)), toS(atomText(f.MapIndex(k)))})
 		}
 	}
 	return out
